@@ -684,10 +684,22 @@ def num_ok(f, r):
         return False
 
 
+def enum_neighbours(f):
+    """Near-miss candidates for an enum-class field: every member of every enum class (as object and by
+    name, allowed or not), member values, wrong-case names."""
+    out = []
+    for cname, cls in sorted(ENUMS.items()):
+        for m in cls:
+            out += [E.reify(m), ("str", m.name), ("str", m.name.lower()), E.reify(m.value)]
+    return out
+
+
 def corrupt(rnd, f, v, classes=None, depth=0):
     """One point corruption of a (presumably valid) value for f."""
     t = f["t"]
     r = rnd.random()
+    if t == "enumcls" and r < 0.8:
+        return rnd.choice(enum_neighbours(f))
     if r < 0.18 or t in ("bool", "none", "any", "enumlit", "enumcls", "ref", "not"):
         return gen_any(rnd)
     if t == "num":
